@@ -85,40 +85,67 @@ struct Obs {
 
 #[derive(Default)]
 pub struct ObsData {
-    /// upper bounds maintained from the invocations so far
-    pub supplied: u128,
+    /// upper bounds maintained from what has been supplied so far:
+    /// visible <= everything added (displayed + hidden can all become displayed) + amend increases,
+    /// hidden <= hidden quantities added, count <= orders added
+    pub vis_bound: u128,
+    pub hid_bound: u128,
     pub adds: u64,
     pub c12: Option<(u64, String)>,
     pub observations: u64,
-    /// (tid, op) -> id being amended (fingerprint) -> last pre-state seen at a map step on that id
-    pub amend_target: BTreeMap<(usize, usize), (u64, IdS)>,
-    pub amend_old: BTreeMap<(usize, usize, u64), Option<OrderSpec>>, // keyed by step_no too
+    /// (tid, op) -> (fingerprint, id, new quantity) of the order being amended
+    pub amend_target: BTreeMap<(usize, usize), (u64, IdS, u64)>,
+    /// what this amend has contributed to `vis_bound` so far
+    pub amend_added: BTreeMap<(usize, usize), u128>,
+    /// pre-state seen at a map step of the amend on its target, keyed by step number
+    pub amend_old: BTreeMap<(usize, usize, u64), Option<OrderSpec>>,
 }
 
 impl Observer for Obs {
-    fn before_op(&mut self, step_no: u64, tid: usize, op: usize, site: Site, key: u64) {
-        let (v, h, c) = read_aggs(&self.level);
+    fn before_op(
+        &mut self,
+        step_no: u64,
+        tid: usize,
+        op: usize,
+        site: Site,
+        key: u64,
+        guard_held: bool,
+    ) {
         let mut d = self.shared.lock().unwrap();
-        d.observations += 1;
-        if d.c12.is_none()
-            && (v as u128 > d.supplied || h as u128 > d.supplied || c as u64 > d.adds)
-        {
-            let (s, a) = (d.supplied, d.adds);
-            d.c12 = Some((
-                step_no,
-                format!(
-                    "before step {step_no} (thread {tid} op {op} {site:?}): visible={v} hidden={h} count={c} but only {s} units in {a} orders were ever supplied"
-                ),
-            ));
-        }
-        if matches!(site, Site::MapRemove | Site::MapGet) {
-            if let Some((fp, id)) = d.amend_target.get(&(tid, op)).cloned() {
+        // an amend supplies max(0, new quantity - displayed quantity of the order it finds):
+        // learnt at its map step on the target, which precedes its counter updates
+        if !guard_held && matches!(site, Site::MapRemove | Site::MapGet) {
+            if let Some((fp, id, q)) = d.amend_target.get(&(tid, op)).cloned() {
                 if fp == key {
                     let l = read_listing(&self.level);
                     let cur = l.into_iter().find(|o| o.id == id);
+                    if let Some(c) = &cur {
+                        if matches!(c.kind, Kind::Standard | Kind::PostOnly | Kind::Iceberg) {
+                            let inc = (q as u128).saturating_sub(c.vis as u128);
+                            let prev = d.amend_added.get(&(tid, op)).cloned().unwrap_or(0);
+                            if inc > prev {
+                                d.vis_bound += inc - prev;
+                                d.amend_added.insert((tid, op), inc);
+                            }
+                        }
+                    }
                     d.amend_old.insert((tid, op, step_no), cur);
                 }
             }
+        }
+        let (v, h, c) = read_aggs(&self.level);
+        d.observations += 1;
+        if d.c12.is_none()
+            && (v as u128 > d.vis_bound || h as u128 > d.hid_bound || c as u64 > d.adds)
+        {
+            let (sv, sh, a) = (d.vis_bound, d.hid_bound, d.adds);
+            d.c12 = Some((
+                step_no,
+                format!(
+                    "before step {step_no} (thread {tid} op {op} {site:?}{}): visible={v} hidden={h} count={c}, but what has been supplied so far allows at most visible {sv}, hidden {sh}, count {a}",
+                    if guard_held { ", inside a map guard" } else { "" }
+                ),
+            ));
         }
     }
 }
@@ -261,7 +288,8 @@ pub fn run_program(p: &Program) -> TOutcome {
     let shared = Arc::new(Mutex::new(ObsData::default()));
     {
         let mut d = shared.lock().unwrap();
-        d.supplied = pre_specs.iter().map(|o| o.vis as u128 + o.hid as u128).sum();
+        d.vis_bound = pre_specs.iter().map(|o| o.vis as u128 + o.hid as u128).sum();
+        d.hid_bound = pre_specs.iter().map(|o| o.hid as u128).sum();
         d.adds = pre_specs.len() as u64;
     }
     sched.m.lock().unwrap().observer = Some(Box::new(Obs {
@@ -298,13 +326,13 @@ pub fn run_program(p: &Program) -> TOutcome {
                     let mut d = shared.lock().unwrap();
                     match op {
                         Op::Add(o) => {
-                            d.supplied += o.vis as u128 + o.hid as u128;
+                            d.vis_bound += o.vis as u128 + o.hid as u128;
+                            d.hid_bound += o.hid as u128;
                             d.adds += 1;
                         }
                         Op::Upd(u) => {
                             if let Some(q) = u.amends(lp) {
-                                d.supplied += q as u128;
-                                d.amend_target.insert((tid, i), (fp_of(u.id), u.id));
+                                d.amend_target.insert((tid, i), (fp_of(u.id), u.id, q));
                             }
                         }
                         _ => {}
@@ -439,19 +467,18 @@ pub fn run_program(p: &Program) -> TOutcome {
     if let Some((s, d)) = &obs.c12 {
         viol("C12", "impossible-aggregate", *s as usize, d.clone(), &mut out);
     }
-    let final_supplied = obs.supplied;
+    let (final_vis, final_hid) = (obs.vis_bound, obs.hid_bound);
     let final_adds = obs.adds;
     for (t, rs) in responses.iter().enumerate() {
         for (i, r) in rs.iter().enumerate() {
             if let Resp::Read { v, h, c } = r {
                 bump(&mut out.probes, "reader_results");
-                if *v as u128 > final_supplied || *h as u128 > final_supplied || *c as u64 > final_adds
-                {
+                if *v as u128 > final_vis || *h as u128 > final_hid || *c as u64 > final_adds {
                     viol(
                         "C12",
                         "reader-saw-impossible-aggregate",
                         i,
-                        format!("thread {t} op {i} read visible={v} hidden={h} count={c}; ever supplied: {final_supplied} units in {final_adds} orders"),
+                        format!("thread {t} op {i} read visible={v} hidden={h} count={c}; supplied over the whole run allows at most visible {final_vis}, hidden {final_hid}, count {final_adds}"),
                         &mut out,
                     );
                 }
@@ -1061,7 +1088,13 @@ pub fn analyse(
                                             Site::AtomicRmw | Site::AtomicStore | Site::AtomicLoad
                                         )
                                 });
-                                let sig = match (hk, reinserts, worked) {
+                                // ... or it has passed the order over (it displays nothing and
+                                // cannot replenish) and keeps it until the call returns
+                                let inert = spec_of
+                                    .get(id)
+                                    .map(|o| o.vis == 0 && crate::model::matchable(o) == 0)
+                                    .unwrap_or(false);
+                                let sig = match (hk, reinserts, worked || inert) {
                                     (OpK::Match, true, true) => "not-found-inflight-match",
                                     (OpK::Amend, true, _) => "not-found-inflight-amend",
                                     _ => "not-found-while-in-book",
